@@ -441,7 +441,6 @@ Proof.
   intros. rewrite <- block_slice. f_equal; f_equal; lia.
 Qed.
 
-Definition is_bit (v : Z) : Prop := v = 0 \/ v = 1.
 
 Lemma ge_chuang_f2 b : (2 <= length b)%nat -> is_bit (last2_bit b) -> is_bit (last_bit b) ->
   bin_chuang_f2 b = spec_bin_chuang_f2 b.
